@@ -796,6 +796,9 @@ func (tk *tokenizer) consumeValueList(endChar byte) []Token {
 				index := bytes.Index(tk.src[tk.pos+2:], []byte("*/"))
 				tk.pos += 2 + index
 				if index == -1 {
+					// an unterminated comment runs to the end of the input,
+					// whatever the nesting level
+					tk.pos = len(tk.src)
 					if !tk.skipComments {
 						out = append(out, Comment{stringVal{pos: tokenPos, Value: string(tk.src[tk.previousPos+2:])}})
 					}
